@@ -5,6 +5,7 @@ use crate::gen::Swarm;
 use crate::scen_bt::Bt;
 use crate::scen_hist::Hist;
 use crate::scen_mask::Mask;
+use crate::scen_trig::Trg;
 use crate::scen_twin::Twin;
 use simcore::runner::{RunReport, Violation};
 
@@ -65,6 +66,18 @@ pub fn spec(id: &str) -> Option<PropSpec> {
         quarantine_note: "",
     };
     Some(match id {
+        "C34" => PropSpec {
+            id: "C34",
+            scenario: "trig",
+            label: 34,
+            runs_quick: 20000,
+            runs_thorough: 300000,
+            level: "exploration",
+            rule: "each run = target table t(id, v, w), audit table, 2-5 seeded triggers (BEFORE/AFTER x INSERT/UPDATE/UPDATE OF v/DELETE x ROW/STATEMENT, optional WHEN on w, a seeded subset with a failing body) and a seeded history of single/multi-row INSERT, UPDATE (of v or of the key) and DELETE statements, some matching zero rows; an evaluation is one comparison of the audit table with the model's expected firings (or one unchanged-state check after a failing trigger); non-trivial = >=1 successful statement and >=1 comparison; distinct = distinct hash of (statement kinds, outcome classes, reach probes)",
+            assumptions: &["affected rows and their new images are read with the SUT's own SELECT on the pre-state", "triggers are created through CreateTriggerStmt values, as the repository's own trigger tests do (the SQL text form of CREATE TRIGGER stores the body as debug-printed tokens and cannot be executed)", "UPDATE OF v triggers: the workload either assigns v a different value or does not assign it, so 'column in the SET list' and 'value changed' coincide", "WHEN conditions test column w, which the workload's UPDATEs never assign (OLD.w = NEW.w)", "statement-level triggers are expected once per statement, also when no row matches"],
+            stubs: &[],
+            quarantine_note: "",
+        },
         "C17" => PropSpec {
             id: "C17",
             scenario: "bt",
@@ -80,6 +93,7 @@ pub fn spec(id: &str) -> Option<PropSpec> {
         "C03" => m("C03", 3, 15000, 300000, &["the gate is switched with the guarded hook H4 (vibesql_types::verif::skip(COLUMNAR)); the hook's hit counter shows how often the gated path was really taken", "probes are single-table COUNT/SUM/AVG/MIN/MAX (also SUM(a*b), SUM(a+k)) with WHERE restricted to what the gate admits, optional HAVING/LIMIT/OFFSET", "results compared bit-exactly including the value variant"], &[]),
         "C05" => m("C05", 5, 10000, 200000, &["'definitional nested evaluation' = all guarded switches H5 set: no join reordering, no hash join (nested loop only), no IN/EXISTS rewrite, no semi-join transform, no index-backed IN fast path, no index scan", "the cross-rendering half (IN/EXISTS/NOT IN/NOT EXISTS, comma-join permutations, INNER JOIN vs cross product + WHERE, derived-table wrapping) is metamorphic generation riding on the same runs", "NOT IN renderings are compared only with the subquery column restricted to non-NULL values and the outer column non-NULL, where the semantics coincide"], &[]),
         "C04" => m("C04", 4, 6000, 100000, &["rayon is replaced by a deterministic single-thread stand-in with rayon's documented semantics (order-preserving collect, stable par_sort_by); per combinator call the stand-in draws the execution order / split tree from a seeded schedule stream", "thresholds are switched per thread through hook H3 (never / always / 7)", "no claim about data races between real threads: the parallel closures contain no unsafe code and capture only shared references"], &["rayon (deterministic stand-in /verif/sim/simrayon)"]),
+        "C32" => m("C32", 32, 8000, 150000, &["views are created in the history and stay while the data changes; every probe family = one outer query over (a) the view, (b) the defining query inlined as a derived table, (c) the defining query as a CTE; all three must agree after every step", "every view exposes two columns a, b; definitions: filtered projection, explicit column list, expression column, GROUP BY aggregate, two-table join, view over view, DISTINCT", "dropping a view that another view depends on is not generated"], &[]),
         "C02" => t("C02", 2, 20000, 400000, &["twin 0 receives every CREATE/DROP INDEX of the history, twin 1 none; a statement rejected by twin 0 (e.g. by a UNIQUE index) is not applied to twin 1, so both stay in the same state", "probes cover a generated SQL subset (single table with all comparison operators/BETWEEN/IN/AND/OR, ORDER BY/LIMIT, DISTINCT, aggregates, GROUP BY, 2-table joins, IN/EXISTS/NOT IN/NOT EXISTS/scalar subqueries, set operations, derived tables)"]),
         "C16" => t("C16", 16, 12000, 200000, &["twin 0 Database::new() (in-memory indexes); twin 1 Database::with_config(memory budget 1..4096 bytes, SpillToDisk); twin 2 disk-backed from CREATE INDEX on (guarded hook H2, the 100000-row threshold is otherwise out of reach); twins 1 and 2 keep their index files on a simulated disk behind the real StorageBackend trait (hook H1)", "same probes as C02; statements must be accepted/rejected alike (unique-index violations)", "transactions are not part of this workload"]),
         "C18" => t("C18", 18, 12000, 200000, &["the restarted twin is saved to a real file under /dev/shm, dropped, and re-created with load_*; the twin that never restarts is the reference", "column types limited to INTEGER and VARCHAR in this scenario (the full persisted type set is exercised by the 'types' sub-scenario)"]),
@@ -183,6 +197,12 @@ fn tweak_for(prop: &str) -> impl Fn(&mut Swarm) {
             sw.n_tables = sw.n_tables.max(2);
             sw.steps = sw.steps.max(20);
         }
+        "C32" => {
+            sw.with_tx = false;
+            sw.extreme_ints = false;
+            sw.fault_pct = sw.fault_pct.min(10);
+            sw.steps = sw.steps.max(20);
+        }
         "C16" => {
             sw.extreme_ints = false;
             sw.with_indexes = true;
@@ -201,8 +221,9 @@ fn tweak_for(prop: &str) -> impl Fn(&mut Swarm) {
 pub fn run(prop: &str, run_seed: u64, guards: &[String]) -> RunReport {
     match prop {
         "C09" | "C10" | "C11" | "C12" | "C13" | "C14" | "C15" | "C24" => run_generated::<Hist>(prop, run_seed, guards, tweak_for(prop)),
+        "C34" => run_generated::<Trg>(prop, run_seed, guards, tweak_for(prop)),
         "C17" => run_generated::<Bt>(prop, run_seed, guards, tweak_for(prop)),
-        "C03" | "C04" | "C05" => run_generated::<Mask>(prop, run_seed, guards, tweak_for(prop)),
+        "C03" | "C04" | "C05" | "C32" => run_generated::<Mask>(prop, run_seed, guards, tweak_for(prop)),
         "C02" | "C16" | "C18" | "C19" => run_generated::<Twin>(prop, run_seed, guards, tweak_for(prop)),
         _ => panic!("unknown property {}", prop),
     }
@@ -214,6 +235,7 @@ pub fn replay(doc: &ReplayDoc) -> (Option<Violation>, u64) {
         "twin" => run_ops::<Twin>(&doc.property, &doc.swarm, &doc.ops),
         "mask" => run_ops::<Mask>(&doc.property, &doc.swarm, &doc.ops),
         "bt" => run_ops::<Bt>(&doc.property, &doc.swarm, &doc.ops),
+        "trig" => run_ops::<Trg>(&doc.property, &doc.swarm, &doc.ops),
         other => panic!("unknown scenario {}", other),
     }
 }
@@ -224,6 +246,7 @@ pub fn minimise_doc(doc: &ReplayDoc) -> ReplayDoc {
         "twin" => minimise::<Twin>(doc),
         "mask" => minimise::<Mask>(doc),
         "bt" => minimise::<Bt>(doc),
+        "trig" => minimise::<Trg>(doc),
         _ => doc.clone(),
     }
 }
